@@ -177,8 +177,8 @@ class _Part(object):
             ok = False
             pairs = rq.monotone_violations(x, q)
             i, j = pairs[0]
-            V(self.site, 'not_monotone', 'x[%d]=%r <= x[%d]=%r but q=%d > %d' % (i, float(x[i]), j, float(x[j]),
-                                                                                 q[i], q[j]), hist)
+            V(self.site, 'not_monotone', 'x[%d]=%r <= x[%d]=%r but q=%d, %d (decreasing, or equal inputs with '
+              'different outputs)' % (i, float(x[i]), j, float(x[j]), q[i], q[j]), hist)
         return ok, exp
 
 
@@ -488,8 +488,8 @@ def case_func(c):
         pairs = rq.monotone_violations(x, q)
         if pairs:
             i, j = pairs[0]
-            V(site, 'not_monotone', 'x[%d]=%r <= x[%d]=%r but q=%d > %d' % (i, float(x[i]), j, float(x[j]),
-                                                                           q[i], q[j]), sub)
+            V(site, 'not_monotone', 'x[%d]=%r <= x[%d]=%r but q=%d, %d (decreasing, or equal inputs with different '
+              'outputs)' % (i, float(x[i]), j, float(x[j]), q[i], q[j]), sub)
 
     def call(site, fn, const_in, sub):
         for strict in (True, False):
@@ -596,7 +596,10 @@ def run(ctx):
         # C: the extreme-magnitude sub-pool
         boxes.append(dict(name='C', depth=3, subs=['S2'], targets=T4))
     else:
-        boxes.append(dict(name='A', depth=5, subs=['S1']))
+        # A: the complete parameter product, every sequence of length 4;  A5: length 5 where the deviation
+        # estimate is not trivially zero (N > 1);  B: length 6 (period 5 included), reduced targets / bit widths
+        boxes.append(dict(name='A', depth=4, subs=['S1']))
+        boxes.append(dict(name='A5', depth=5, subs=['S1'], nsamp=[3, 10000]))
         boxes.append(dict(name='B', depth=6, subs=['S1'], nsamp=[3, 10000], periods=PERIODS + [5], targets=T4,
                           bits=[2, 3, 5, 8]))
         boxes.append(dict(name='C', depth=4, subs=['S2']))
